@@ -69,6 +69,9 @@ func (in *Interp) constValue(c *ssa.Const) (Value, bool) {
 func (in *Interp) unop(fr *frame, instr *ssa.UnOp, x Value) Value {
 	switch instr.Op {
 	case token.MUL: // load
+		if sp, ok := x.(SymElemPtr); ok {
+			return in.loadSymElem(sp)
+		}
 		return in.load(in.asPtr(x))
 	case token.SUB:
 		switch x := x.(type) {
